@@ -39,6 +39,7 @@ template <class E, size_t N, class S> struct Caps<vt::WLB<E, N, S>> { static con
 template <class A> struct Caps<vt::T1<A>> { static constexpr int v = Caps<A>::v | CapSkip; };
 template <class A, class B> struct Caps<vt::T2<A, B>> { static constexpr int v = CapsOr<A, B>::v | CapSkip; };
 template <class A, class B> struct Caps<vt::T3<A, B>> { static constexpr int v = CapsOr<A, B>::v | CapSkip; };
+template <class A, class B> struct Caps<vt::T3A<A, B>> { static constexpr int v = CapsOr<A, B>::v | CapSkip; };
 template <class A> struct Caps<vt::T0H<A>> { static constexpr int v = Caps<A>::v | CapSkip; };
 template <class A> struct Caps<vt::TZ<A>> { static constexpr int v = Caps<A>::v | CapSkip; };
 
